@@ -1743,6 +1743,115 @@ class C07(Prop):
         return [io[0][:3]] if io else ["noout"]
 
 
+class C15(HistProp):
+    id = "C15"
+    generated = ["Constants", "FnTable"]
+    clauses = {"view"}
+    rule = ("hook scripts: the history generator of C08 restricted to what the C table offers (set_flags/rcode/opcode, add_to_*, "
+            "rename_with_raw_names, section callbacks with name / rr_type / rr_class / rr_ttl / set_rr_ttl / rr_ip / set_rr_ip (A/AAAA only) / "
+            "set_raw_name / set_name with default zone / delete, raw_packet with ample and with too small capacity, question, "
+            "raw_name_from_str, iter_edns), issued through the real FnTable by a C driver compiled with the system C compiler against the "
+            "SHIPPED c_hook.h; every out-buffer sits flush against a PROT_NONE guard page and is pre-filled with a canary. Each facade "
+            "observation must equal the native model's; after every step the object must still match a fresh parse. Non-trivial: script "
+            "mutates the packet through the table; distinct = distinct script.")
+    strength = ("PARTIAL: proved/decided in Coq: abi_table_match on the regenerated Rust table and C header (entries, order, ABI classes, "
+                "repr(C), capacities, ABI version), exactly 4 or 16 address bytes, converted names within 256 bytes, packets copied out "
+                "only within the stated capacity (C15_*). That each unsafe table entry behaves as the native operation and stays inside the "
+                "caller's buffers is validated by the C driver with guard pages, not proved; panics crossing the FFI boundary and UB inside "
+                "the unsafe blocks are outside what a Coq model can express.")
+    assumptions = ["documented preconditions: valid pointers and stated capacities, accessors on live cursors only, rr_ip/set_rr_ip only on "
+                   "A/AAAA with matching length, NUL-terminated UTF-8 record text",
+                   "the C driver is compiled by the system C compiler (cc) against /repo/src/bin/c_hook/c_hook.h"]
+
+    def to_facade(self, st):
+        """Facade form of a native step, or None when the table has no such entry."""
+        f = st.op.split(",")
+        if f[0] in ("sf", "sr", "so"):
+            return "F," + st.op
+        if f[0] == "I":
+            return "F," + st.op
+        if f[0] == "rn":
+            return "F," + st.op
+        if f[0] == "W" and f[1] in ("an", "ns", "ar") and f[2] == "0":
+            return "F,W,%s,%s" % (f[1], f[3])
+        return None
+
+    def gen(self, rng, tier):
+        n = 300 if tier == "quick" else 8000
+        cases = []
+        for i in range(n):
+            first, a, flags = self.base(rng, kind="parsed")
+            bld = H.Builder(rng, a, flags)
+            ops = [first, "v", "fp", "ca", "b"]
+            steps = []
+            for _ in range(rng.randint(1, 5)):
+                k = rng.choice(["header", "insert", "insert-bad", "rename", "walk", "walk", "walk", "getter"])
+                before = len(bld.steps)
+                if k == "walk":
+                    bld.walk_op(mode="mixed", incl=False, c_safe=True)
+                elif k == "getter":
+                    ops += [rng.choice(["F,g", "F,fq", "F,we", "F,b", "F,b,%d" % rng.choice([0, 11, 50, 200, 8192]),
+                                        "F,Z," + hx(T.dotted(T.rand_hostname(rng))), "F,Z," + hx(b"a..b")])]
+                    continue
+                else:
+                    self.random_step(rng, bld, {k: 1})
+                for st in bld.steps[before:]:
+                    fop = self.to_facade(st)
+                    steps.append(st)
+                    ops += [fop if fop is not None else st.op, "v", "fp", "ca", "b"]
+            ops += ["F,b", "F,g"]
+            cases.append(Case("f%d" % i, "\t".join(ops), {"family": "hook-script", "steps": [], "nsteps": len(steps)}))
+        return cases
+
+    def oracle(self, case, io):
+        w = no_crash(io)
+        if w:
+            return "[crash] " + w + " (a table call made as the shipped header declares it crashed the process)" if io is None else "[crash] " + w
+        ops = case.line.split("\t")
+        last_b = None
+        fails = []
+        for i, (op, o) in enumerate(zip(ops, io)):
+            if op.startswith("F,"):
+                for bad in ("!wrote", "BADLEN", "NOT-TERMINATED", "=RC", "RC", "ABI-VERSION", "nodesc", "emptydesc", "unterminated", "exceeds-capacity", "BADOP"):
+                    if bad in o and not o.startswith("OK:"):
+                        return "[buffer] facade op %s: %s" % (op[:60], o[:200])
+                if op == "F,b" and last_b is not None and o != last_b:
+                    return "[facade] raw_packet copy-out differs from the packet: %s vs %s" % (o[:80], last_b[:80])
+            if op == "b":
+                last_b = o
+            if op == "fp" and i >= 1:
+                self.check_state(fails, "after op %d (%s)" % (i - 2, ops[i - 2][:60]), io[i - 1], o, io[i + 1] if i + 1 < len(io) else "ca=-",
+                                 io[i + 2][2:] if i + 2 < len(io) and io[i + 2].startswith("b=") else None)
+        known = known_classes(self.id)
+        for cls, txt in fails:
+            if cls not in known and cls not in ("no-question", "qr-gating"):
+                return "[%s] %s" % (cls, txt)
+        return None
+
+    def nontrivial(self, case, io):
+        return hash(case.line) if case.meta.get("nsteps", 0) > 0 else None
+
+    def tags(self, case, io):
+        return ["ops=%d" % min(40, len(case.line.split("\t")))]
+
+    def meta_to_json(self, meta):
+        return dict(meta, steps=[])
+
+    def meta_from_json(self, meta):
+        return dict(meta, steps=[])
+
+    def shrink(self, case, still_fails):
+        ops = case.line.split("\t")
+        for n in range(6, len(ops)):
+            c2 = Case(case.id, "\t".join(ops[:n]), case.meta)
+            try:
+                if still_fails(c2):
+                    return c2
+            except Exception:
+                pass
+        return case
+
+
 class C16(Prop):
     id = "C16"
     generated = ["Constants", "Ambient"]
@@ -1894,4 +2003,4 @@ class C17(Prop):
         return [io[0][:7]] if io else ["noout"]
 
 
-REGISTRY = {"C02": C02, "C16": C16, "C17": C17, "C06": C06, "C07": C07, "C08": C08, "C09": C09, "C10": C10, "C11": C11, "C01": C01, "C18": C18, "C12": C12, "C03": C03, "C04": C04, "C05": C05, "C13": C13, "C14": C14}
+REGISTRY = {"C02": C02, "C15": C15, "C16": C16, "C17": C17, "C06": C06, "C07": C07, "C08": C08, "C09": C09, "C10": C10, "C11": C11, "C01": C01, "C18": C18, "C12": C12, "C03": C03, "C04": C04, "C05": C05, "C13": C13, "C14": C14}
